@@ -104,10 +104,14 @@ def rand_scenario(rng, idx, focus):
             cont = False
         else:
             ops = ["next", "reply"] if cont else ["reply"]
+            if rng.random() < 0.08:
+                ops = ops[:-1] + ["badreply", "reply"]
         p = {"sid": sid, "seq": seq, "ty": ty, "min": rng.randint(0, 1), "fl": fl, "rd": rd, "ops": ops, "bv": rng.randint(0, 9)}
         if rd in ("ok",) and rng.random() < 0.7:
             b = rand_body(rng, ty)
             if b is not None:
+                if focus == "C19" and len(b) > 1 and rng.random() < 0.35:
+                    b = b[:len(b) - rng.randint(1, min(4, len(b) - 1))]   # a valid body cut short by a few octets
                 p["body"] = b
         if focus == "C19" and rng.random() < 0.6 and rd == "ok":
             p["ckey"] = [rng.randint(0, 255) for _ in range(rng.choice([0, 1, 5, 9]))]
